@@ -16,4 +16,5 @@ let lookup (p : string) : Model.sexp -> Model.sexp =
   | "c20" -> Model.run_c20
   | "c07" -> Model.run_c07
   | "c16" -> Model.run_c16
+  | "c08" -> Model.run_c08
   | _ -> failwith ("unknown property " ^ p)
